@@ -134,7 +134,7 @@ def main():
         })
     manifest = {
         "version": 1,
-        "setup_cmd": "cd /verif/harness && %s go build ./... && %s go vet ./kit/ && %s go test -c -vet=off -tags verif -o .bin/props-plain.test ./props" % (ENV, ENV, ENV),
+        "setup_cmd": "cd /verif/harness && %s go build ./... && %s go vet ./kit/ && %s go test -c -vet=off -tags verif -o .bin/props-plain.test ./props && %s go test -c -race -vet=off -tags verif -o .bin/props-race.test ./props" % (ENV, ENV, ENV, ENV),
         "hooks": {
             "guard": "verif",
             "enable": "go build tag: -tags verif (the driver always passes it; no hook files exist at present, every check uses exported API only)",
